@@ -10,7 +10,8 @@ extracted from the source by shape (fail closed: anything not recognised raises 
   * plot_lines / plot_heatmap: `ax = self.axs[i_ax, j_ax]` with i_ax from the row and j_ax from the col
     coordinate; plot_lines: the all-null skip, the join_across_missing mask, the style loop
     (`idx = loc[dim]`, `prop_out = self.values[prop][idx]`) and that ax.plot is called once per iteration
-  * the histogram call: np.histogram(x, bins=self.bins, density=self.bins_density)[0]
+  * the histogram call: np.histogram(x, bins=self.bins, density=self.bins_density)[0], and how '__hist_dim__' is
+    built (stack of the unmapped dimensions, or a length-one dimension when every dimension is mapped)
 """
 import ast
 import os
@@ -233,13 +234,31 @@ def hist_call(tree):
     if len(lam) != 1 or ast.unparse(lam[0]) != "lambda x: np.histogram(x, bins=self.bins, density=self.bins_density)[0]":
         raise Refused(c, "histogram lambda changed")
     src = ast.unparse(fn)
-    for need in ("self.ds = self.ds.stack({'__hist_dim__': self.unmapped})",
-                 "nbins = min(max(3, int(self.ds['__hist_dim__'].size ** 0.5)), 50)",
+    for need in ("nbins = min(max(3, int(self.ds['__hist_dim__'].size ** 0.5)), 50)",
                  "self.bins = np.linspace(xmin, xmax, nbins + 1)",
                  "bin_coords = (self.bins[1:] + self.bins[:-1]) / 2"):
         if need not in src:
             raise Refused(fn, f"histogram branch: missing `{need}`")
     return "density=self.bins_density"
+
+
+def hist_stack(tree):
+    """How the histogram branch builds '__hist_dim__' (the dimension np.histogram runs over):
+    'stack-or-expand_dims' -- the unmapped dimensions are stacked, and when there is none a length-one dimension
+    is added (every slice is then a single value); 'stack-only' -- the older shape, which raises in that case."""
+    fn = find_function(tree, "Infiniplotter.__init__")
+    branch = [n for n in fn.body if isinstance(n, ast.If) and ast.unparse(n.test) == "self.is_histogram"]
+    if len(branch) != 1:
+        raise Refused(fn, "histogram branch not found")
+    stack = "self.ds = self.ds.stack({'__hist_dim__': self.unmapped})"
+    texts = [ast.unparse(b) for b in branch[0].body]
+    makers = [t for t in texts if "__hist_dim__" in t and t.startswith(("self.ds =", "if "))
+              and "nbins" not in t and "apply_ufunc" not in t]
+    if makers == [stack]:
+        return "stack-only"
+    if makers == [f"if self.unmapped:\n    {stack}\nelse:\n    self.ds = self.ds.expand_dims('__hist_dim__')"]:
+        return "stack-or-expand_dims"
+    raise Refused(branch[0], "construction of __hist_dim__ changed")
 
 
 def generate(repo):
@@ -250,6 +269,7 @@ def generate(repo):
     panel, style_loop = lines_wiring(tree)
     hpanel = heat_wiring(tree)
     hc = hist_call(tree)
+    hs = hist_stack(tree)
     nm, dm = table_info(tree, "_MARKERS_DEFAULT")
     nl, dl = table_info(tree, "_LINESTYLES_DEFAULT")
     nc, dc = table_info(tree, "_COLORS_DEFAULT")
@@ -272,5 +292,6 @@ def generate(repo):
            f"Definition gen_n_colors : nat := {nc}%nat.",
            f"Definition gen_colors_distinct : bool := {'true' if dc else 'false'}.",
            f'Definition gen_hist_density : string := "{hc}"%string.',
+           f'Definition gen_hist_stack : string := "{hs}"%string.',
            ""]
     return "\n".join(out)
